@@ -89,6 +89,23 @@ def _test_sel(inp, labelled):
                 if list(one[name].dims) != others:
                     return f'select_index: {name!r} dims {one[name].dims}, expected the other dimensions {others} intact'
     must_raise(lambda: ems.select_indexes([]), 'empty index list', ValueError)
+    # history: a selection after an earlier one and an in-place change of the dataset sees the dataset as it is now
+    victim = next((n for n, v in ds.data_vars.items() if set(kdims) <= set(v.dims) and str(n) not in geometry and v.dtype.kind == 'f'), None)
+    if victim is not None and ds.ems is ems:
+        ds[victim] = ds[victim] * 2 + 1
+        ds['added_later'] = xarray.DataArray(numpy.arange(size, dtype=float).reshape(shape) + 0.5, dims=kdims)
+        lin = lists[1]
+        idxs = [native(spec['conv'], kind, numpy.unravel_index(l, shape)) for l in lin]
+        res = must(lambda: ds.ems.select_indexes(idxs, index_dimension='request'), 'select_indexes after an in-place change')
+        for name in (victim, 'added_later'):
+            if name not in res:
+                return f'{name!r} (set after an earlier selection) is missing from a later selection'
+            v = ds[name]
+            others = [d for d in v.dims if d not in kdims]
+            want = v.transpose(*(others + kdims)).values.reshape([v.sizes[d] for d in others] + [size])[..., lin]
+            got = res[name].transpose(*(others + ['request'])).values
+            if got.shape != want.shape or got.tobytes() != want.tobytes():
+                return f'{name!r}: a selection made after the variable was replaced in place returns the values from before the change'
     return None
 
 
